@@ -795,7 +795,48 @@ def _canon_cmp(e: ast.expr) -> str:
     return ast.unparse(e)
 
 
-def _entail_guards(fn: FuncInfo) -> List[str]:
+def _positional(fn: FuncInfo, e: ast.expr) -> ast.expr:
+    """The expression with the function's own naming removed: locals bound once to an expression are replaced by it (x = domains[:-1]),
+    parameters by their position."""
+    once: Dict[str, ast.expr] = {}
+    counts: Dict[str, int] = {}
+    for n in ast.walk(fn.node):
+        tg = []
+        if isinstance(n, ast.Assign):
+            tg = n.targets
+        elif isinstance(n, (ast.AugAssign, ast.AnnAssign, ast.For)):
+            tg = [n.target]
+        for t in tg:
+            for x in (t.elts if isinstance(t, (ast.Tuple, ast.List)) else [t]):
+                if isinstance(x, ast.Name):  # (a store through a subscript does not re-bind the name)
+                    counts[x.id] = counts.get(x.id, 0) + 1
+        if isinstance(n, ast.Assign) and len(n.targets) == 1 and isinstance(n.targets[0], ast.Name):
+            once[n.targets[0].id] = n.value
+    once = {k: v for k, v in once.items() if counts.get(k) == 1 and k not in fn.params}
+    pos = {p_: f"P{i}" for i, p_ in enumerate(fn.params)}
+
+    class Sub(ast.NodeTransformer):
+        def __init__(self) -> None:
+            self.depth = 0
+
+        def visit_Name(self, n: ast.Name):
+            if n.id in once and self.depth < 6:
+                self.depth += 1
+                r = self.visit(ast.parse(ast.unparse(once[n.id]), mode="eval").body)
+                self.depth -= 1
+                return r
+            if n.id in pos:
+                return ast.copy_location(ast.Name(id=pos[n.id], ctx=n.ctx), n)
+            return n
+
+    return Sub().visit(ast.parse(ast.unparse(e), mode="eval").body)
+
+
+def _entail_guards(fn: FuncInfo) -> List[ast.expr]:
+    return [_positional(fn, g) for g in _entail_guards_raw(fn)]
+
+
+def _entail_guards_raw(fn: FuncInfo) -> List[ast.expr]:
     out = []
     for n in ast.walk(fn.node):
         if isinstance(n, ast.If) and any(isinstance(x, ast.Return) and isinstance(x.value, ast.Name) and x.value.id == "PROP_ENTAILMENT" for x in n.body):
@@ -865,7 +906,7 @@ def _cell_rows(x: Any, dom: str, acc: List[Aff]) -> None:
             _cell_rows(y, dom, acc)
 
 
-def _store_may_hit_row(st: Any, e: Any, dom: str, row: Aff) -> bool:
+def _store_may_hit_row(st: Any, e: Any, dom: str, row: Aff, fn_node: Optional[ast.AST] = None) -> bool:
     """May the store event e (into `dom`) write a cell of the given constant row?"""
     if not e.idx or not isinstance(e.idx[0], Aff):
         return True
@@ -874,26 +915,49 @@ def _store_may_hit_row(st: Any, e: Any, dom: str, row: Aff) -> bool:
         if r0.c == row.c:
             return True
         return (r0.c < 0) != (row.c < 0)  # one counted from the end, the other from the start: not decided here
-    # a symbolic row reached through a view that excludes the tail of the array (x = dom[:-k]; x[j] = ...) never is one of the last k rows
+    # a symbolic row reached through a view that excludes the tail of the array (x = dom[:-k]; x[j] = ... or y = x[j]; y[:] = ...) never
+    # is one of the last k rows
+    once: Dict[str, ast.expr] = {}
+    if fn_node is not None:
+        cnt: Dict[str, int] = {}
+        for n in ast.walk(fn_node):
+            if isinstance(n, ast.Assign) and len(n.targets) == 1 and isinstance(n.targets[0], ast.Name):
+                cnt[n.targets[0].id] = cnt.get(n.targets[0].id, 0) + 1
+                once[n.targets[0].id] = n.value
+        once = {k: v for k, v in once.items() if cnt[k] == 1}
+
+    def excluded_tail(name: str, depth: int = 0) -> int:
+        v = st.env.get(name)
+        if isinstance(v, View) and v.root == dom and len(v.idx) == 1 and isinstance(v.idx[0], tuple) and v.idx[0][0] == "slice":
+            hi = v.idx[0][2]
+            if isinstance(hi, Aff) and hi.is_const() and hi.c < 0:
+                return -hi.c
+        src = once.get(name)
+        if depth < 4 and isinstance(src, ast.Subscript):
+            b = src.value
+            while isinstance(b, ast.Subscript):
+                b = b.value
+            if isinstance(b, ast.Name):
+                return excluded_tail(b.id, depth + 1)
+        return 0
+
     tgt = e.node.targets[0] if isinstance(e.node, ast.Assign) and len(e.node.targets) == 1 else getattr(e.node, "target", None)
     while isinstance(tgt, ast.Subscript) and not isinstance(tgt.value, ast.Name):
         tgt = tgt.value
     if isinstance(tgt, ast.Subscript) and isinstance(tgt.value, ast.Name):
-        v = st.env.get(tgt.value.id)
-        if isinstance(v, View) and v.root == dom and len(v.idx) == 1 and isinstance(v.idx[0], tuple) and v.idx[0][0] == "slice":
-            hi = v.idx[0][2]
-            if isinstance(hi, Aff) and hi.is_const() and hi.c < 0 and row.c < 0 and row.c >= hi.c:
-                return False
+        k = excluded_tail(tgt.value.id)
+        if k and row.c < 0 and row.c >= -k:
+            return False
     return True
 
 
-def _ground_at_some_point(it: Interp, r: Any, dom: str, row: Aff, MIN: int, MAX: int) -> bool:
+def _ground_at_some_point(it: Interp, r: Any, dom: str, row: Aff, MIN: int, MAX: int, fn_node: Optional[ast.AST] = None) -> bool:
     """The path establishes that row `row` of `dom` is a single value at some point after which nothing writes that row."""
     st = r.state
     evs = st.trace
     last_hit = 0
     for e in evs:
-        if e.kind == "store" and e.root == dom and _store_may_hit_row(st, e, dom, row):
+        if e.kind == "store" and e.root == dom and _store_may_hit_row(st, e, dom, row, fn_node):
             last_hit = max(last_hit, e.hpos + 1)
     seen = set()
     for pos in [len(st.heap)] + sorted({e.hpos for e in evs if e.hpos >= last_hit}, reverse=True):
@@ -974,7 +1038,7 @@ def rule_entail_guard(ctx: Ctx, prog: Program) -> None:
             st = r.state
             f = st.facts
             if fam == "index":
-                okk = _ground_at_some_point(it, r, dom, rows[0], MIN, MAX)
+                okk = _ground_at_some_point(it, r, dom, rows[0], MIN, MAX, fn.node)
             elif fam == "counter":
                 a, b = counters  # type: ignore[misc]
                 okk = a in st.env and b in st.env and f.decide(cmp_cond("==", it.scalar(st, st.env[a]), it.scalar(st, st.env[b]))) is True
@@ -1071,3 +1135,63 @@ def rule_vector_width(ctx: Ctx, prog: Program) -> None:
     if not n_bad:
         ctx.ok("R-VECTOR-WIDTH", "no element-wise +, -, * between two 32-bit array views of the arguments in any filtering function", sample={"functions": n_fn})
     ctx.floor("R-VECTOR-WIDTH:filtering-functions", n_fn, 25)
+
+
+# ------------------------------------------------------------------------------------------ R-SOLE-CANDIDATE
+def rule_sole_candidate(ctx: Ctx, prog: Program) -> None:
+    """The aggregate constraints max_i x_i = y / min_i x_i = y count, in one scan, the variables that can still be the aggregate and, when one
+    is left, force it to take over a bound of y (`if candidates == 1: x[c, MIN] = y[MIN]`).  That is sound only if every variable *not*
+    counted is unable to reach that bound, i.e. if the scan compares each variable with the very bound of y that is forced afterwards.
+    Comparing with the other bound of y (`x[i, MAX] >= y[MAX]` while forcing y[MIN]) counts too few candidates: a variable that can still
+    reach y[MIN] is overlooked, the 'sole' candidate is forced, and solutions in which another variable is the aggregate are removed.
+    Rule (agreement of two statements of the same function, no specification consulted): the value the candidates are compared with occurs
+    in the value the sole candidate is forced to."""
+    ctx.rule("R-SOLE-CANDIDATE")
+    n = 0
+    for _, fn, _ in propagator_triples(prog):
+        for loop in [x for x in fn.node.body if isinstance(x, ast.For)]:
+            idx_names = {x.id for x in ast.walk(loop.target) if isinstance(x, ast.Name)}
+            found = None
+            for node in ast.walk(loop):
+                if not (isinstance(node, ast.If) and isinstance(node.test, ast.Compare) and len(node.test.ops) == 1):
+                    continue
+                ups = [s_.target.id for s_ in node.body if isinstance(s_, ast.AugAssign) and isinstance(s_.op, ast.Add) and isinstance(s_.target, ast.Name)
+                       and isinstance(s_.value, ast.Constant) and s_.value.value == 1]
+                recs = [s_.targets[0].id for s_ in node.body if isinstance(s_, ast.Assign) and len(s_.targets) == 1 and isinstance(s_.targets[0], ast.Name)
+                        and isinstance(s_.value, ast.Name) and s_.value.id in idx_names]
+                if len(ups) == 1 and len(recs) == 1:
+                    l_, r_ = node.test.left, node.test.comparators[0]
+                    l_is = any(isinstance(x, ast.Name) and x.id in idx_names for x in ast.walk(l_))
+                    r_is = any(isinstance(x, ast.Name) and x.id in idx_names for x in ast.walk(r_))
+                    if l_is != r_is:
+                        found = (ups[0], recs[0], r_ if l_is else l_, node)
+            if found is None:
+                continue
+            counter, cand, T, test_node = found
+            after = fn.node.body[fn.node.body.index(loop) + 1:]
+            forced = []
+            for st in after:
+                if isinstance(st, ast.If) and isinstance(st.test, ast.Compare) and len(st.test.ops) == 1 and isinstance(st.test.ops[0], ast.Eq) \
+                        and {ast.unparse(st.test.left), ast.unparse(st.test.comparators[0])} == {counter, "1"}:
+                    for s_ in st.body:
+                        if isinstance(s_, ast.Assign) and len(s_.targets) == 1 and isinstance(s_.targets[0], ast.Subscript) \
+                                and any(isinstance(x, ast.Name) and x.id == cand for x in ast.walk(s_.targets[0].slice)):
+                            forced.append(s_)
+            if not forced:
+                continue
+            n += 1
+            ctx.fn(fn.fq)
+            t_txt = ast.unparse(_positional(fn, T))
+            for s_ in forced:
+                f_txts = {ast.unparse(x) for x in ast.walk(_positional(fn, s_.value)) if isinstance(x, ast.expr)}
+                if t_txt in f_txts:
+                    ctx.ok("R-SOLE-CANDIDATE", f"{fn.name}: the candidates are compared with the bound the sole candidate is forced to",
+                           sample={"compared_with": ast.unparse(T), "forced_to": ast.unparse(s_.value)})
+                else:
+                    ctx.violation("R-SOLE-CANDIDATE", fn.path, fn.name, "test-and-forced-bound-differ", f"{fn.path}:{test_node.lineno}",
+                                  f"{fn.name} counts as candidates the variables with `{ast.unparse(test_node.test)}` and, when one is left, forces "
+                                  f"`{ast.unparse(s_.targets[0])} = {ast.unparse(s_.value)}`: the scan compares with `{ast.unparse(T)}`, the forced value is "
+                                  f"`{ast.unparse(s_.value)}`.  A variable that can still reach `{ast.unparse(s_.value)}` but not `{ast.unparse(T)}` is not counted, "
+                                  "the 'sole' candidate is forced and every solution in which the other variable is the aggregate is removed "
+                                  "(e.g. max(x0, x1) = y on x0 in [0,5], x1 in [0,3], y in [2,5] loses (0,2,2), (1,3,3), ...)")
+    ctx.floor("R-SOLE-CANDIDATE:aggregate-constraints", n, 2)
